@@ -151,6 +151,19 @@ CHECKS["C04"] = (
     LEVEL_NOTE_COMMON + "Partial: byte-level integrity (bit flips, truncation, re-encoding) rests on the AE/JWS idealisation and is exercised on the real libraries, not proved.",
     "DESIGN.md §6 C04")
 
+CHECKS["C07"] = (
+    "Rocq proof (released claims bounded by the four permitted sources, value constraints, null never released) + vm_compute correspondence with the real ClaimsInterface + end-to-end bound oracle on the four release points",
+    "Theorems (Props/C07.v, closed) over Model/Claims.v (get_claims_from_request, _client_claims, scopes_to_claims, get_user_claims, "
+    "claims_match): every released attribute is in the restriction, is the user's own non-null value and satisfies its value/values "
+    "constraint; the restriction's keys come only from base claims, always-add claims (module or per-client), claims mapped from scopes "
+    "the token carries AND the client is allowed, and the claims request of that release point. Correspondence: restriction (order and "
+    "specs) and released claims of ~400 (quick) generated configurations x scopes x claims requests x release points vs. the real "
+    "ClaimsInterface. Oracle: attributes found in real userinfo responses, ID Tokens, introspection responses and JWT access tokens lie "
+    "within the bound recomputed from the configuration; foreign-audience introspection and dead tokens release nothing; the same flow "
+    "releases the same on a long-lived and a fresh provider.",
+    LEVEL_NOTE_COMMON + "The user database is an arbitrary function; 'nothing for an invalid token' rests on C03/C04; history independence on C20 (both probed by the oracle).",
+    "DESIGN.md §6 C07")
+
 NOT_YET = "not claimed in this snapshot: its model/theorems/driver are not built yet (DESIGN.md §9 build order); no check is registered rather than a weaker technique"
 
 
